@@ -19,9 +19,10 @@ ob("HTPsync_order", ["C17"], entry="h_HTPsync_order", enforce=None, bound="<= 3 
 for n, tier in [(0, "quick"), (1, "quick"), (5, "thorough"), (4, "thorough")]:
     ob(f"HTPinit_n{n}", ["C02", "C12", "C16"], entry="h_HTPinit", enforce="HTPinit", mode="bounded", tier=tier,
        bound=f"requested ndds == {n} (one constant per run; 0 -> default 16, 1 -> minimum 4)", unwind=20, defines=[f"H4V_NDDS_IN={n}"], **DD)
-# HTPstart (reading the DD chain of an existing file) is NOT under contract: both a contract with a whole-object frame and a harness-level
-# formulation over a 1-2 block symbolic file image ran cbmc out of memory (10 GB) -- the harness h_HTPstart and its checks stay in the unit.
-# Consequence: the "end of file includes trailing DD blocks" fact of C17 and the decode half of C12's reopen are residual.
+# HTPstart (reading the DD chain of an existing file) is NOT registered: a contract with a whole-object frame, and a harness-level
+# formulation over a 1-2 block symbolic file image (h_HTPstart, kept in the unit), both ran cbmc out of memory at 10 GB (about 300k
+# symex steps, 15k VCCs).  Consequence: "the end of file includes trailing DD blocks" (C17) and the decode half of C12's reopen
+# are residual; seeded change C17-m2 is not detected.
 
 prop("C02",
      residual="'an independent reader recovers the same content' as a whole-file relation; no-overlap of all live elements over a history; chunk/compressed element internal consistency",
